@@ -260,13 +260,25 @@ func setupFile(v6 bool, args ...string) (handler.Handler6, handler.Handler4, err
 					continue
 				}
 
-				log.Infof("updated to %d leases from %s", len(StaticRecords), filename)
+				log.Infof("updated to %d leases from %s", numRecords(v6), filename)
 			}
 		}()
 	}
 
-	log.Infof("loaded %d leases from %s", len(StaticRecords), filename)
+	log.Infof("loaded %d leases from %s", numRecords(v6), filename)
 	return Handler6, Handler4, nil
+}
+
+// numRecords returns the size of a protocol's lease table. The tables are
+// replaced by the refresh goroutines of every instance, so even reading their
+// length needs the lock.
+func numRecords(v6 bool) int {
+	recLock.RLock()
+	defer recLock.RUnlock()
+	if v6 {
+		return len(StaticRecords)
+	}
+	return len(staticRecords4)
 }
 
 func loadFromFile(v6 bool, filename string) error {
